@@ -1,21 +1,35 @@
 """Translator for C20, part 3: the diagnostic channel.
 
-Extracted (every run, from the working tree under test):
-  * `warnSpec`      - what `ford.console.warn(msg)` hands to `console.print` (ast of the function: the
-                      positional arguments as pieces - literal text, the message, `escape(message)` -
-                      each either a `str` (rendered as console markup) or a `rich.text.Text`; the
-                      keywords `markup`, `emoji`, `sep`; the defaults of the `Console` object);
+Round 5: nothing here is read from the *spelling* of the code any more - every table is what the real
+functions were seen to do on stub inputs (a local name, a helper function, a constant hoisted out of a call,
+another way to build the same string change nothing; a change of behaviour does).
+
+Obtained (every run, from the working tree under test):
+  * `warnSpec`      - what `ford.console.warn(msg)` hands to `console.print` (the method of ford's console
+                      object is replaced by a recorder while `warn` runs on marker messages: the positional
+                      arguments as pieces - literal text, the message, `escape(message)` - each either a
+                      `str` (rendered as console markup) or a `rich.text.Text`; the keywords `markup`,
+                      `emoji`, `sep`; the defaults of the `Console` object);
   * `warnProbes`    - what the real `warn` prints for a fixed list of messages (brackets, closing-tag
                       look-alikes, backslashes, emoji codes): the text with blanks removed, or that it
                       raised;
-  * `progressSpec`  - how the progress bar of the per-file loop shows the current file
-                      (`TextColumn("{task.fields[current]}", markup=...)`, `set_current(escape(...))`);
+  * `progressSpec`  - how the progress bar of the per-file loop shows the current file: the `TextColumn` of the
+                      `Progress` object a real `ProgressBar` holds (`text_format`, `markup`), the field
+                      `current` after `set_current(<name with a tag look-alike>)`, the argument the per-file
+                      loop passes for a file of such a name;
   * `progressProbes`- whether a real `ProgressBar` survives showing a fixed list of file names;
-  * `rejectionMsg`  - the pieces of the message the per-file handler of `Project.__init__` passes to
-                      `warn` (the path of *the file of this iteration*, the exception text);
-  * `handlerSteps`  - the statements of that handler (re-raise unless dbg, warn, continue);
+  * `handlerSteps`  - what the per-file handler of `Project.__init__` does (class `HandlerProbe`: the loop is run
+                      over three files, the constructor of the middle one raising; every built-in exception
+                      class, every shape of `args`; with and without `dbg`): re-raise unless dbg, one call of
+                      `warn` before the next file, the next file read and registered;
+  * `rejectionRules`- the message of that handler as a decision list over the text of the exception: pieces
+                      (literal, the path of *the file of this iteration*, the exception text) found by marker
+                      decomposition; a text for which the default pieces do not explain the message (texts
+                      of every `raise` in ford's reader / parser / project modules, texts the real reader
+                      produces directly and through INCLUDE) has its guard - a prefix of the text - learned
+                      by bisection;
   * `emojiSample`   - for a fixed vocabulary of names, what rich's emoji table has.
-A construct that cannot be found raises (the check then reports "tie broken").
+A probe that cannot be interpreted raises (the check then reports "tie broken").
 """
 from __future__ import annotations
 
@@ -25,6 +39,7 @@ import inspect
 import io
 import os
 import textwrap
+from pathlib import Path
 
 # names that may stand between two colons in the generated file names / source lines
 EMOJI_VOCAB = ["", "x", "a", "b", "m", "o", "v", "n", "i", "j", "k", "zz", "100", "1234", "on", "off", "ok",
@@ -74,42 +89,8 @@ def lb(x: bool) -> str:
 
 
 # ----------------------------------------------------------------------------------------------
-# warn
+# warn  (round 5: observed - what `console.print` is handed - not read from the source)
 # ----------------------------------------------------------------------------------------------
-def _resolves_to(mod, name, target) -> bool:
-    return getattr(mod, name, None) is target
-
-
-def _pieces(node, param, mod) -> list[tuple[str, str]]:
-    """a string-valued expression -> [("lit", text) | ("msg", "") | ("msgEscaped", "")]"""
-    import rich.markup
-
-    if isinstance(node, ast.Constant) and isinstance(node.value, str):
-        return [("lit", node.value)]
-    if isinstance(node, ast.Name) and node.id == param:
-        return [("msg", "")]
-    if isinstance(node, ast.Call) and isinstance(node.func, ast.Name) and len(node.args) == 1 and not node.keywords \
-            and isinstance(node.args[0], ast.Name) and node.args[0].id == param:
-        if _resolves_to(mod, node.func.id, rich.markup.escape):
-            return [("msgEscaped", "")]
-        if node.func.id == "str":
-            return [("msg", "")]
-        raise ValueError(f"the message goes through {node.func.id}(), which the translator does not know")
-    if isinstance(node, ast.JoinedStr):
-        out = []
-        for v in node.values:
-            if isinstance(v, ast.Constant):
-                out.append(("lit", v.value))
-            elif isinstance(v, ast.FormattedValue) and v.conversion in (-1, 115) and v.format_spec is None:
-                out += _pieces(v.value, param, mod)
-            else:
-                raise ValueError("an f-string piece with a conversion / format spec")
-        return out
-    if isinstance(node, ast.BinOp) and isinstance(node.op, ast.Add):
-        return _pieces(node.left, param, mod) + _pieces(node.right, param, mod)
-    raise ValueError(f"argument of console.print that the translator cannot read: {ast.dump(node)[:120]}")
-
-
 def _merge(ps):
     out = []
     for k, s in ps:
@@ -124,83 +105,106 @@ def _merge(ps):
 
 IGNORED_PRINT_KW = {"highlight", "style", "justify", "overflow", "no_wrap", "crop", "soft_wrap", "width", "height",
                     "new_line_start"}
+# messages for the probe: each contains a style tag look-alike, so that `msg` and `escape(msg)` differ
+WARN_MARKS = ["QZ[b]the-messageZQ", "QZ[/x] second \\[1] :x: messageZQ"]
 
 
-def extract_warn_spec():
+def _msg_pieces(text: str, mark: str) -> list[tuple[str, str]]:
+    """a string handed to console.print -> [("lit", text) | ("msg", "") | ("msgEscaped", "")]"""
+    from rich.markup import escape
+
+    esc = escape(mark)
+    out, lit, i = [], "", 0
+    while i < len(text):
+        if text.startswith(mark, i):
+            k, n = "msg", len(mark)
+        elif esc != mark and text.startswith(esc, i):
+            k, n = "msgEscaped", len(esc)
+        else:
+            lit += text[i]
+            i += 1
+            continue
+        out += [("lit", lit), (k, "")]
+        lit = ""
+        i += n
+    out.append(("lit", lit))
+    out = _merge(out)
+    for k, s_ in out:
+        if k == "lit" and ("QZ" in s_ or "ZQ" in s_):
+            raise ValueError(f"warn() hands its message to console.print through something the translator does not know: {text!r}")
+    return out
+
+
+def _observe_print(mark: str):
+    """call the real `warn(mark)` with `print` of ford's console replaced by a recorder"""
     import rich.console
     import rich.text
     import ford.console as fc
 
-    tree = ast.parse(inspect.getsource(fc))
-    fn = next((n for n in tree.body if isinstance(n, ast.FunctionDef) and n.name == "warn"), None)
-    if fn is None:
-        raise ValueError("ford/console.py has no function warn")
-    params = [a.arg for a in fn.args.args]
-    if len(params) != 1 or fn.args.vararg or fn.args.kwonlyargs or fn.args.kwarg:
-        raise ValueError("warn() no longer takes exactly one argument")
-    param = params[0]
-    body = [n for n in fn.body if not (isinstance(n, ast.Expr) and isinstance(n.value, ast.Constant))]
-    if len(body) != 1 or not (isinstance(body[0], ast.Expr) and isinstance(body[0].value, ast.Call)):
-        raise ValueError("warn() is no longer a single call")
-    call = body[0].value
-    f = call.func
-    if not (isinstance(f, ast.Attribute) and f.attr == "print" and isinstance(f.value, ast.Name)
-            and isinstance(getattr(fc, f.value.id, None), rich.console.Console)):
-        raise ValueError("warn() does not call <Console>.print")
-    console = getattr(fc, f.value.id)
-    if console is not fc.console:
-        raise ValueError("warn() prints on another console than ford.console.console")
+    if not isinstance(getattr(fc, "console", None), rich.console.Console):
+        raise ValueError("ford.console.console is not a rich Console")
+    console = fc.console
+    calls = []
+    console.print = lambda *a, **k: calls.append((a, k))      # instance attribute: shadows the method
+    try:
+        with contextlib.redirect_stdout(io.StringIO()), contextlib.redirect_stderr(io.StringIO()):
+            fc.warn(mark)
+    finally:
+        del console.print
+    if len(calls) != 1:
+        raise ValueError(f"warn() calls ford.console.console.print {len(calls)} times (expected once)")
+    a, k = calls[0]
     args = []
-    for a in call.args:
-        if isinstance(a, ast.Starred):
-            raise ValueError("starred argument of console.print")
-        is_text = False
-        # `console.highlighter(Text(...))`: a highlighted copy of the Text (styles only)
-        if isinstance(a, ast.Call) and isinstance(a.func, ast.Attribute) and a.func.attr == "highlighter" \
-                and isinstance(a.func.value, ast.Name) and getattr(fc, a.func.value.id, None) is console \
-                and len(a.args) == 1 and not a.keywords and isinstance(a.args[0], ast.Call):
-            a = a.args[0]
-        if isinstance(a, ast.Call):
-            fa = a.func
-            if isinstance(fa, ast.Name) and _resolves_to(fc, fa.id, rich.text.Text):
-                if len(a.args) != 1:
-                    raise ValueError("Text(...) with other than one positional argument")
-                ps = _pieces(a.args[0], param, fc)
-                is_text = True
-            elif isinstance(fa, ast.Attribute) and fa.attr == "assemble" and isinstance(fa.value, ast.Name) \
-                    and _resolves_to(fc, fa.value.id, rich.text.Text):
-                ps = []
-                for part in a.args:
-                    if isinstance(part, ast.Tuple):
-                        part = part.elts[0]
-                    ps += _pieces(part, param, fc)
-                is_text = True
-        if not is_text:
-            ps = _pieces(a, param, fc)
-        args.append(("text" if is_text else "markup", _merge(ps)))
-    markup = bool(console._markup)
-    emoji = bool(console._emoji)
-    sep = " "
-    for kw in call.keywords:
-        if kw.arg in ("markup", "emoji"):
-            if not (isinstance(kw.value, ast.Constant) and isinstance(kw.value.value, bool)):
-                raise ValueError(f"console.print({kw.arg}=<not a constant>)")
-            if kw.arg == "markup":
-                markup = kw.value.value
+    for x in a:
+        if isinstance(x, rich.text.Text):
+            args.append(("text", _msg_pieces(x.plain, mark)))
+        elif isinstance(x, str):
+            args.append(("markup", _msg_pieces(x, mark)))
+        else:
+            raise ValueError(f"warn() hands console.print an object of type {type(x).__name__}")
+    markup, emoji, sep = bool(console._markup), bool(console._emoji), " "
+    for name, v in k.items():
+        if name in ("markup", "emoji"):
+            if v is None:
+                continue
+            if not isinstance(v, bool):
+                raise ValueError(f"console.print({name}=<not a bool>)")
+            if name == "markup":
+                markup = v
             else:
-                emoji = kw.value.value
-        elif kw.arg == "sep":
-            if not (isinstance(kw.value, ast.Constant) and isinstance(kw.value.value, str)):
-                raise ValueError("console.print(sep=<not a constant>)")
-            sep = kw.value.value
-        elif kw.arg == "end":
-            if not (isinstance(kw.value, ast.Constant) and kw.value.value == "\n"):
+                emoji = v
+        elif name == "sep":
+            if not isinstance(v, str):
+                raise ValueError("console.print(sep=<not a string>)")
+            sep = v
+        elif name == "end":
+            if v != "\n":
                 raise ValueError("console.print(end=...) other than a newline")
-        elif kw.arg not in IGNORED_PRINT_KW:
-            raise ValueError(f"console.print keyword {kw.arg!r} is not known to the translator")
-    if not any(k in ("msg", "msgEscaped") for _, ps in args for k, _ in ps):
+        elif name not in IGNORED_PRINT_KW:
+            raise ValueError(f"console.print keyword {name!r} is not known to the translator")
+    if not any(kk in ("msg", "msgEscaped") for _, ps in args for kk, _ in ps):
         raise ValueError("warn() does not print its message")
     return {"args": args, "sep": sep, "markup": markup, "emoji": emoji}
+
+
+def extract_warn_spec():
+    """what `ford.console.warn(msg)` hands to `console.print`: the positional arguments as pieces (literal
+    text, the message, `escape(message)`), each a `str` (rendered as markup) or a `Text`; `markup`, `emoji`,
+    `sep`.  Observed on two messages (the answers must agree); that the function does the same for every
+    message is what `warnProbes` (theorem `warn_probes`) and the harness's warn correspondence check."""
+    import inspect as _inspect
+    import ford.console as fc
+
+    fn = getattr(fc, "warn", None)
+    if not callable(fn):
+        raise ValueError("ford/console.py has no function warn")
+    params = list(_inspect.signature(fn).parameters.values())
+    if len([p_ for p_ in params if p_.default is p_.empty and p_.kind in (p_.POSITIONAL_ONLY, p_.POSITIONAL_OR_KEYWORD)]) != 1:
+        raise ValueError("warn() no longer takes exactly one argument")
+    specs = [_observe_print(m) for m in WARN_MARKS]
+    if any(sp != specs[0] for sp in specs[1:]):
+        raise ValueError(f"warn() hands different things to console.print for different messages: {specs}")
+    return specs[0]
 
 
 def real_warn(msg: str):
@@ -219,63 +223,60 @@ def real_warn(msg: str):
 # ----------------------------------------------------------------------------------------------
 # progress bar
 # ----------------------------------------------------------------------------------------------
-def _is_escape_call(node, mod) -> bool:
-    import rich.markup
-
-    return (isinstance(node, ast.Call) and isinstance(node.func, ast.Name)
-            and _resolves_to(mod, node.func.id, rich.markup.escape) and len(node.args) == 1)
-
-
 def extract_progress_spec():
+    """how the progress bar of the per-file loop shows the current file: is the column that shows
+    `task.fields[current]` rendered as markup, and is the path escaped on its way there (by `set_current`, or
+    at the call in `Project.__init__`).  Observed on the real objects: the columns of the `Progress` a
+    `ProgressBar` builds, the field after `set_current(<name with a tag look-alike>)`, the argument the
+    per-file loop passes for a file of that name."""
+    import rich.progress
+    from rich.markup import escape
     import ford.utils as fu
-    import ford.fortran_project as fp
 
-    tree = ast.parse(inspect.getsource(fu))
-    cls = next((n for n in tree.body if isinstance(n, ast.ClassDef) and n.name == "ProgressBar"), None)
-    if cls is None:
+    if not isinstance(getattr(fu, "ProgressBar", None), type):
         raise ValueError("ford/utils.py has no class ProgressBar")
-    col = None
-    for n in ast.walk(cls):
-        if isinstance(n, ast.Call) and isinstance(n.func, ast.Name) and n.func.id == "TextColumn" and n.args \
-                and isinstance(n.args[0], ast.Constant) and "fields[current]" in str(n.args[0].value):
-            col = n
-    if col is None:
-        raise ValueError("ProgressBar has no TextColumn showing task.fields[current]")
-    if col.args[0].value != "{task.fields[current]}":
-        raise ValueError(f"the column of the current item is {col.args[0].value!r}")
-    markup = True
-    for kw in col.keywords:
-        if kw.arg == "markup":
-            if not isinstance(kw.value, ast.Constant):
-                raise ValueError("TextColumn(markup=<not a constant>)")
-            markup = bool(kw.value.value)
-    setc = next((n for n in cls.body if isinstance(n, ast.FunctionDef) and n.name == "set_current"), None)
-    if setc is None:
-        raise ValueError("ProgressBar has no set_current")
-    p = [a.arg for a in setc.args.args][1]
-    escaped = None
-    for n in ast.walk(setc):
-        if isinstance(n, ast.Call) and isinstance(n.func, ast.Attribute) and n.func.attr == "update":
-            for kw in n.keywords:
-                if kw.arg == "current":
-                    if isinstance(kw.value, ast.Name) and kw.value.id == p:
-                        escaped = False
-                    elif _is_escape_call(kw.value, fu) and isinstance(kw.value.args[0], ast.Name) and kw.value.args[0].id == p:
-                        escaped = True
-                    else:
-                        raise ValueError("set_current passes something else than its argument on")
-    if escaped is None:
-        raise ValueError("set_current does not update the field `current`")
-    # the call in the per-file loop
-    init = _project_init()
-    site = None
-    for n in ast.walk(init):
-        if isinstance(n, ast.Call) and isinstance(n.func, ast.Attribute) and n.func.attr == "set_current":
-            site = n
-    if site is None or len(site.args) != 1:
-        raise ValueError("Project.__init__ does not call set_current(<one argument>)")
-    if _is_escape_call(site.args[0], fp):
+    saved = os.environ.get("FORD_DEBUGGING")
+    os.environ["FORD_DEBUGGING"] = "1"          # the Progress object is built, nothing is drawn
+    try:
+        with contextlib.redirect_stdout(io.StringIO()), contextlib.redirect_stderr(io.StringIO()):
+            bar = fu.ProgressBar("probe", [1])
+            progs = [v for v in vars(bar).values() if isinstance(v, rich.progress.Progress)]
+            if len(progs) != 1:
+                raise ValueError(f"a ProgressBar holds {len(progs)} rich Progress objects")
+            cols = [c for c in progs[0].columns if isinstance(c, rich.progress.TextColumn) and "current" in c.text_format]
+            if len(cols) != 1:
+                raise ValueError("ProgressBar has no (single) TextColumn showing task.fields[current]")
+            if cols[0].text_format != "{task.fields[current]}":
+                raise ValueError(f"the column of the current item is {cols[0].text_format!r}")
+            markup = bool(cols[0].markup)
+            mark = "QZ[b]current-itemZQ"
+            for _ in bar:
+                bar.set_current(mark)
+            shown = [t.fields.get("current") for t in progs[0].tasks]
+    finally:
+        if saved is None:
+            os.environ.pop("FORD_DEBUGGING", None)
+        else:
+            os.environ["FORD_DEBUGGING"] = saved
+    if shown == [mark]:
+        escaped = False
+    elif shown == [escape(mark)]:
         escaped = True
+    else:
+        raise ValueError(f"set_current passes something else than its argument on: {shown!r}")
+    # the call in the per-file loop
+    hp = HandlerProbe()
+    try:
+        o = hp.run(None, True)
+    finally:
+        hp.close()
+    cur = [m for k, m in o["events"] if k == "current"]
+    if o["escaped"] is not None or len(cur) != 3:
+        raise ValueError("Project.__init__ does not call set_current once per file")
+    if cur[1] == escape(hp.relpath) != hp.relpath:
+        escaped = True
+    elif cur[1] != hp.relpath:
+        raise ValueError(f"the per-file loop shows {cur[1]!r} as the current file, not its relative path {hp.relpath!r}")
     return {"markup": markup, "escaped": escaped}
 
 
@@ -299,83 +300,345 @@ def real_progress(name: str) -> bool:
 
 
 # ----------------------------------------------------------------------------------------------
-# the per-file handler of Project.__init__
+# the per-file handler of Project.__init__  (round 5: observed, not read)
 # ----------------------------------------------------------------------------------------------
-def _project_init():
-    import ford.fortran_project as fp
-
-    src = textwrap.dedent(inspect.getsource(fp.Project.__init__))
-    return ast.parse(src).body[0]
+ERR_MARK = "QZ-the-exception-text-ZQ"
+PROBE_FILE = "p1_QZ[b]probedfileZQ.f90"
 
 
-def _names(node) -> set[str]:
-    return {n.id for n in ast.walk(node) if isinstance(n, ast.Name)}
+def err_text(exc) -> str:
+    """the text of an exception as the model's `err`: its first argument (formatted), `()` when it has none"""
+    return format(exc.args[0]) if len(exc.args) > 0 else "()"
+
+
+class HandlerProbe:
+    """Runs the real per-file loop of `Project.__init__` over three files (two small valid ones and,
+    between them, one whose constructor raises a given exception) and says what happened: which
+    files were read, what `warn` was given and when, what left the loop, what is registered."""
+
+    def __init__(self):
+        import tempfile
+
+        self.tmp = tempfile.TemporaryDirectory(prefix="c20handler")
+        self.root = Path(self.tmp.name)
+        self.src = self.root / "probe_src"
+        self.src.mkdir()
+        (self.src / "p0_first.f90").write_text("module p_first\nend module p_first\n")
+        (self.src / PROBE_FILE).write_text("module p_probe\nend module p_probe\n")
+        (self.src / "p2_last.f90").write_text("module p_last\nend module p_last\n")
+        self.relpath = os.path.join("probe_src", PROBE_FILE)
+        self.runs = 0
+
+    def close(self):
+        self.tmp.cleanup()
+
+    def run(self, exc, dbg=True):
+        import ford.fortran_project as fp
+        import ford.sourceform as sf
+        from ford.settings import ProjectSettings
+
+        import ford.console as fc
+
+        self.runs += 1
+        events = []
+        orig_ff, orig_warn, orig_cwarn = fp.Project._fortran_file, fp.warn, fc.warn
+
+        def ff(self_, extension, filename, settings):
+            name = Path(filename).name
+            events.append(("file", name))
+            if name == PROBE_FILE and exc is not None:
+                raise exc
+            return orig_ff(self_, extension, filename, settings)
+
+        def warn(*a, **k):
+            events.append(("warn", a[0] if a else next(iter(k.values()), None)))
+
+        import ford.utils as fu
+        orig_sc = fu.ProgressBar.set_current
+
+        def set_current(self_, current, *a, **k):
+            events.append(("current", current))
+            return orig_sc(self_, current, *a, **k)
+
+        cwd = os.getcwd()
+        saved_ns = sf.namelist
+        saved_env = os.environ.get("FORD_DEBUGGING")
+        escaped, proj = None, None
+        try:
+            os.environ["FORD_DEBUGGING"] = "1"
+            fp.Project._fortran_file, fp.warn = ff, warn
+            fc.warn = warn              # (a handler that reaches the function through its module)
+            fu.ProgressBar.set_current = set_current
+            os.chdir(self.root)
+            with contextlib.redirect_stdout(io.StringIO()), contextlib.redirect_stderr(io.StringIO()):
+                try:
+                    proj = fp.Project(ProjectSettings(src_dir=[self.src], preprocess=False, dbg=dbg))
+                except Exception as e:  # noqa - observed
+                    escaped = e
+        finally:
+            fp.Project._fortran_file, fp.warn = orig_ff, orig_warn
+            fc.warn = orig_cwarn
+            fu.ProgressBar.set_current = orig_sc
+            sf.namelist = saved_ns
+            os.chdir(cwd)
+            if saved_env is None:
+                os.environ.pop("FORD_DEBUGGING", None)
+            else:
+                os.environ["FORD_DEBUGGING"] = saved_env
+        return {"events": events, "escaped": escaped,
+                "registered": None if proj is None else [f.name for f in proj.files]}
+
+    def message(self, exc):
+        """the one message `warn` is given for the probed file under dbg (None: the run did not go as in `classify`)"""
+        o = self.run(exc, True)
+        return self._one_warning(o)
+
+    @staticmethod
+    def _one_warning(o):
+        ev = o["events"]
+        if o["escaped"] is not None or ("file", PROBE_FILE) not in ev:
+            return None
+        i = ev.index(("file", PROBE_FILE))
+        j = next((k for k in range(i + 1, len(ev)) if ev[k][0] == "file"), len(ev))
+        ws = [m for kind, m in ev[i + 1:j] if kind == "warn"]
+        return ws[0] if len(ws) == 1 and isinstance(ws[0], str) else None
+
+    def steps(self, exc) -> tuple[str, ...]:
+        """the behaviour of the handler on this exception, in the vocabulary of `Markup.HStep`"""
+        out = []
+        o = self.run(exc, False)
+        if o["escaped"] is exc and not any(k == "warn" for k, _ in o["events"]) \
+                and ("file", "p2_last.f90") not in o["events"]:
+            out.append("reraiseUnlessDbg")
+        o = self.run(exc, True)
+        ev = o["events"]
+        if o["escaped"] is not None:
+            out.append("escapes")
+            return tuple(out)
+        i = ev.index(("file", PROBE_FILE))
+        j = next((k for k in range(i + 1, len(ev)) if ev[k][0] == "file"), len(ev))
+        nwarn = len([1 for kind, _ in ev[i + 1:j] if kind == "warn"])
+        if nwarn == 1 and len([1 for kind, _ in ev if kind == "warn"]) == 1:
+            out.append("warn")
+        elif nwarn == 0:
+            out.append("silent")
+        else:
+            out += ["warn"] * nwarn
+        if ("file", "p2_last.f90") in ev[j:j + 1] and o["registered"] == ["p0_first.f90", "p2_last.f90"]:
+            out.append("continue_")
+        return tuple(out)
+
+
+def probe_exceptions():
+    """one instance of every built-in exception class the handler can meet (`Exception` and below)"""
+    import builtins
+
+    out = []
+    for name in sorted(vars(builtins)):
+        cls = getattr(builtins, name)
+        if not (isinstance(cls, type) and issubclass(cls, Exception)) or issubclass(cls, Warning):
+            continue
+        if any(c is cls for c, _ in out):
+            continue            # an alias (EnvironmentError, IOError)
+        try:
+            if issubclass(cls, UnicodeDecodeError):
+                e = cls("utf-8", b"caf\xe9", 3, 4, ERR_MARK)
+            elif issubclass(cls, UnicodeEncodeError):
+                e = cls("utf-8", "caf\xe9", 3, 4, ERR_MARK)
+            elif issubclass(cls, UnicodeTranslateError):
+                e = cls("caf\xe9", 3, 4, ERR_MARK)
+            elif name.endswith("ExceptionGroup"):
+                e = cls(ERR_MARK, [ValueError(1)])
+            else:
+                e = cls(ERR_MARK)
+        except Exception:  # noqa - a class that cannot be built this way is not probed
+            continue
+        out.append((cls, e))
+    return out
+
+
+def raise_site_texts() -> list[str]:
+    """the texts FORD's own code raises inside the per-file try: every `raise X(<string>)` of the
+    reader / parser / project modules, placeholders filled with a neutral word"""
+    import ford.reader, ford.sourceform, ford.fortran_project, ford.utils  # noqa
+
+    def text_of(node):
+        if isinstance(node, ast.Constant) and isinstance(node.value, str):
+            return node.value
+        if isinstance(node, ast.JoinedStr):
+            return "".join(v.value if isinstance(v, ast.Constant) else "subst" for v in node.values)
+        if isinstance(node, ast.BinOp) and isinstance(node.op, ast.Add):
+            a, b_ = text_of(node.left), text_of(node.right)
+            return None if a is None or b_ is None else a + b_
+        if isinstance(node, ast.Name):
+            return "subst"
+        return None
+
+    out = []
+    for mod in (ford.reader, ford.sourceform, ford.fortran_project, ford.utils):
+        tree = ast.parse(inspect.getsource(mod))
+        assigned = {}
+        for n in ast.walk(tree):
+            if isinstance(n, ast.Assign) and len(n.targets) == 1 and isinstance(n.targets[0], ast.Name):
+                t = text_of(n.value) if not isinstance(n.value, ast.Name) else None
+                if t is not None:
+                    assigned.setdefault(n.targets[0].id, t)
+        for n in ast.walk(tree):
+            if isinstance(n, ast.Raise) and isinstance(n.exc, ast.Call) and n.exc.args:
+                a = n.exc.args[0]
+                t = assigned.get(a.id) if isinstance(a, ast.Name) else text_of(a)
+                if t is not None and t not in out:
+                    out.append(t)
+    return out
+
+
+def real_reader_error_texts() -> list[str]:
+    """the texts the real reader raises on its error lines, in a file read directly and in a file read
+    through INCLUDE (one and two levels deep)"""
+    import tempfile
+    import ford.reader as fr
+
+    lines = ["& x = 1", "x = 1 !> doc after code", "integer :: y !| doc", "x = 2 !* doc", 'include "no_such_file.inc"']
+    out = []
+    with tempfile.TemporaryDirectory(prefix="c20reader") as d:
+        d = Path(d)
+        for ln in lines:
+            (d / "leaf.inc").write_text(f"integer :: a\n{ln}\n")
+            (d / "mid.inc").write_text('integer :: b\ninclude "leaf.inc"\n')
+            (d / "direct.f90").write_text(f"module m\n{ln}\nend module m\n")
+            (d / "one.f90").write_text('module m\ninclude "leaf.inc"\nend module m\n')
+            (d / "two.f90").write_text('module m\ninclude "mid.inc"\nend module m\n')
+            for top in ("direct.f90", "one.f90", "two.f90"):
+                try:
+                    with contextlib.redirect_stdout(io.StringIO()), contextlib.redirect_stderr(io.StringIO()):
+                        list(fr.FortranReader(str(d / top), "!", ">", "*", "|", inc_dirs=[str(d)]))
+                except Exception as e:  # noqa - the text is what is wanted
+                    t = err_text(e).replace(str(d), "/probe")
+                    if t not in out:
+                        out.append(t)
+    return out
+
+
+def _decompose(msg: str, relpath: str, err: str | None):
+    """the message as pieces: the path of the probed file, the exception text, literal text"""
+    out, lit, i = [], "", 0
+    while i < len(msg):
+        if msg.startswith(relpath, i):
+            k, n = "path", len(relpath)
+        elif err and msg.startswith(err, i):
+            k, n = "err", len(err)
+        else:
+            lit += msg[i]
+            i += 1
+            continue
+        if lit:
+            out.append(("lit", lit))
+            lit = ""
+        out.append((k, ""))
+        i += n
+    if lit:
+        out.append(("lit", lit))
+    for k, s_ in out:
+        if k == "lit" and (PROBE_FILE in s_ or "c20handler" in s_):
+            raise ValueError("the handler's warning names the file in another way than by the path relative to "
+                             f"the working directory: {msg!r}")
+    return out
+
+
+def _assemble(pieces, relpath, err):
+    return "".join(s_ if k == "lit" else relpath if k == "path" else err for k, s_ in pieces)
+
+
+def _apply_rules(rules, relpath, err):
+    for g, ps in rules:
+        if g is None or err.startswith(g):
+            return _assemble(ps, relpath, err)
+    return None
 
 
 def extract_handler():
-    import ford.fortran_project as fp
+    """-> (steps, rules): the behaviour of the per-file handler and its message as a decision list over
+    the exception text [(prefix of the text | None = any, pieces)].
 
-    init = _project_init()
-    loops = [n for n in ast.walk(init) if isinstance(n, ast.For) and any(isinstance(b, ast.Try) for b in n.body)]
-    if len(loops) != 1:
-        raise ValueError(f"Project.__init__ has {len(loops)} loops with a try statement in their body (expected the per-file loop)")
-    loop = loops[0]
-    if not isinstance(loop.target, ast.Name):
-        raise ValueError("the per-file loop does not bind a single name")
-    fname = loop.target.id
-    # names assigned in the loop body (before the try) from the loop variable
-    from_file = {fname}
-    for st in loop.body:
-        if isinstance(st, ast.Try):
-            break
-        if isinstance(st, ast.Assign) and len(st.targets) == 1 and isinstance(st.targets[0], ast.Name) \
-                and _names(st.value) & from_file:
-            from_file.add(st.targets[0].id)
-    tr = next(b for b in loop.body if isinstance(b, ast.Try))
-    if len(tr.handlers) != 1:
-        raise ValueError("the per-file try statement has other than one handler")
-    h = tr.handlers[0]
-    if not (isinstance(h.type, ast.Name) and h.type.id == "Exception" and h.name):
-        raise ValueError("the per-file handler is not `except Exception as <name>`")
-    exc = h.name
-    steps, pieces = [], None
-    for st in h.body:
-        if isinstance(st, ast.If) and isinstance(st.test, ast.UnaryOp) and isinstance(st.test.op, ast.Not) \
-                and isinstance(st.test.operand, ast.Attribute) and st.test.operand.attr == "dbg" \
-                and len(st.body) == 1 and isinstance(st.body[0], ast.Raise) and not st.orelse:
-            steps.append("reraiseUnlessDbg")
-        elif isinstance(st, ast.Expr) and isinstance(st.value, ast.Call) and isinstance(st.value.func, ast.Name) \
-                and getattr(fp, st.value.func.id, None) is __import__("ford.console").console.warn:
-            steps.append("warn")
-            if len(st.value.args) != 1 or st.value.keywords:
-                raise ValueError("the handler calls warn with other than one argument")
-            a = st.value.args[0]
-            if not isinstance(a, ast.JoinedStr):
-                raise ValueError("the handler's warning is not an f-string")
-            pieces = []
-            for v in a.values:
-                if isinstance(v, ast.Constant):
-                    pieces.append(("lit", v.value))
-                elif isinstance(v, ast.FormattedValue) and v.format_spec is None and v.conversion in (-1, 115):
-                    nm = _names(v.value)
-                    if isinstance(v.value, ast.Name) and v.value.id in from_file:
-                        pieces.append(("path", ""))
-                    elif exc in nm and not (nm & from_file):
-                        pieces.append(("err", ""))
-                    else:
-                        raise ValueError(f"the handler's warning shows {ast.unparse(v.value)!r}, which is neither "
-                                         "the file of this iteration nor the exception")
-                else:
-                    raise ValueError("the handler's warning has a formatted piece the translator cannot read")
-        elif isinstance(st, ast.Continue):
-            steps.append("continue_")
-        elif isinstance(st, ast.Expr) and isinstance(st.value, ast.Constant):
-            continue
+    Nothing is read from the source of the handler: the loop is *run* with a constructor that raises -
+    every built-in exception class, every shape of `args`, every text FORD's own code raises (and
+    the texts the real reader produces, also through INCLUDE) - and the calls of `warn` are watched.
+    A local name, a helper function, another spelling of the same expression change nothing here; a
+    handler that lets some exception through, stops the loop, says nothing, or says something
+    that depends on the exception in a way the decision list cannot express, does."""
+    hp = HandlerProbe()
+    try:
+        # ---- behaviour, per exception class (they must all be treated alike)
+        by_steps = {}
+        for cls, e in probe_exceptions():
+            by_steps.setdefault(hp.steps(e), []).append(cls.__name__)
+        shapes = [(), (ERR_MARK,), (ERR_MARK, "second"), (3,), ((ERR_MARK, "b"),), (None,), ("",)]
+        for a in shapes:
+            by_steps.setdefault(hp.steps(Exception(*a)), []).append(f"Exception{a!r}")
+        if len(by_steps) != 1:
+            # the odd ones out decide (a class that escapes, a shape that is not warned about)
+            minority = min(by_steps.items(), key=lambda kv: len(kv[1]))
+            steps = list(minority[0])
+            note = f"not uniform: {minority[1][:4]} are treated as {list(minority[0])}"
         else:
-            raise ValueError(f"the per-file handler has a statement the model does not know: {ast.unparse(st)[:80]!r}")
-    if pieces is None:
-        raise ValueError("the per-file handler does not call warn")
-    return steps, pieces
+            steps = list(next(iter(by_steps)))
+            note = f"uniform over {sum(len(v) for v in by_steps.values())} probes"
+        majority = max(by_steps.items(), key=lambda kv: len(kv[1]))[0]
+        if "warn" not in majority:
+            return steps, [(None, [("lit", "")])], note
+        uniform = len(by_steps) == 1
+        # ---- the message: default pieces, from a text that is nothing but a marker
+        rel = hp.relpath
+        msg = hp.message(Exception(ERR_MARK))
+        if msg is None:
+            raise ValueError("the per-file handler does not give one string to warn() for a plain Exception")
+        default = _decompose(msg, rel, ERR_MARK)
+        rules = [(None, default)]
+        # ---- every text: does the decision list explain what warn() was given?
+        texts = [ERR_MARK, "", " ", "()", rel, "\n", "{x} %s", "In", "Error", "Warning"]
+        texts += raise_site_texts() + real_reader_error_texts()
+        probes = [Exception(t) for t in dict.fromkeys(texts)] + [Exception(*a) for a in shapes] \
+            + [e for _, e in probe_exceptions()]
+        for e in probes:
+            t = err_text(e)
+            got = hp.message(e)
+            if got == _apply_rules(rules, rel, t):
+                continue
+            if got is None and not uniform:
+                continue        # one of the exceptions that are treated differently (see `steps`)
+            if got is None:
+                raise ValueError(f"the per-file handler does not give one string to warn() for {e!r}")
+            if not (len(e.args) == 1 and isinstance(e.args[0], str)):
+                raise ValueError(f"the handler's warning for {e!r} is {got!r}: it depends on the shape of the "
+                                 "exception's arguments in a way the model cannot express")
+            # learn the guard: the shortest prefix of the text that makes the difference
+            def deviates(prefix):
+                tt = prefix + ERR_MARK
+                return hp.message(Exception(tt)) != _assemble(default, rel, tt)
+            lo, hi = 0, len(t)
+            if not deviates(t[:hi]):
+                raise ValueError(f"the handler's warning for the exception text {t!r} is {got!r}, and the "
+                                 "difference is not decided by a prefix of the text")
+            while lo < hi:
+                mid = (lo + hi) // 2
+                if deviates(t[:mid]):
+                    hi = mid
+                else:
+                    lo = mid + 1
+            pre = t[:lo]
+            if pre == "" or deviates("x" + pre) and not deviates("x"):
+                raise ValueError(f"the handler's warning depends on the exception text ({t!r} -> {got!r}) in a way "
+                                 "the model cannot express (not a prefix test)")
+            tt = pre + ERR_MARK
+            pieces = _decompose(hp.message(Exception(tt)), rel, tt)
+            rules.insert(len(rules) - 1, (pre, pieces))
+            rules.sort(key=lambda r: (r[0] is None, -len(r[0] or "")))
+            if hp.message(e) != _apply_rules(rules, rel, t):
+                raise ValueError(f"the handler's warning for the exception text {t!r} is {got!r}; the learned rule "
+                                 f"(prefix {pre!r} -> {pieces}) does not explain it")
+        return steps, rules, note + f"; {hp.runs} runs of the loop"
+    finally:
+        hp.close()
 
 
 # ----------------------------------------------------------------------------------------------
@@ -406,7 +669,7 @@ def piece_lean(p) -> str:
 def lean_table() -> list[str]:
     spec = extract_warn_spec()
     prog = extract_progress_spec()
-    steps, pieces = extract_handler()
+    steps, rules, hnote = extract_handler()
     probes = [(m, real_warn(m)) for m in WARN_PROBES]
     pprobes = [(n, real_progress(n)) for n in PROGRESS_PROBES]
 
@@ -428,8 +691,10 @@ def lean_table() -> list[str]:
          "/-- a real ProgressBar on fixed file names: did showing the name raise -/",
          "def progressProbes : List (Str × Bool) :=",
          "  [" + ", ".join(f"({lc(n)}, {lb(r)})" for n, r in pprobes) + "]", "",
-         "/-- the statements of the per-file handler of Project.__init__ -/",
+         f"/-- the behaviour of the per-file handler of Project.__init__, observed ({hnote}) -/",
          "def handlerSteps : List Markup.HStep := [" + ", ".join("." + s for s in steps) + "]", "",
-         "/-- the warning of that handler -/",
-         "def rejectionMsg : List Markup.MsgPiece := [" + ", ".join(piece_lean(p) for p in pieces) + "]"]
+         "/-- the warning of that handler: decision list over the text of the exception -/",
+         "def rejectionRules : List (Markup.ErrGuard × List Markup.MsgPiece) :=",
+         "  [" + ",\n   ".join("(" + (".any" if g is None else f".errPrefix {lc(g)}") + ", ["
+                               + ", ".join(piece_lean(p) for p in ps) + "])" for g, ps in rules) + "]"]
     return L
